@@ -1306,7 +1306,12 @@ class CompilerPassGatherCode(CompilerPass):
                 # labels are not allowed to have indentation
                 c = c.strip()
 
-            if options.original_code_as_comment and line.node:
+            if (
+                options.original_code_as_comment
+                and line.node
+                and line.node.root() is self.data.tree
+            ):
+                # only lines of the main source can be quoted (library modules have their own text)
                 ori_line = original_code[line.node.lineno - 1]
                 if prev_comment != ori_line:
                     c = c.ljust(just_width)
